@@ -309,13 +309,13 @@ func (s *Crash) Run(env *core.Env, st *core.Stats) (vs []core.Violation) {
 			st.Distinct(core.NewHash().Bytes(s.Raw))
 			st.Sample(map[string]any{"mode": "raw", "how": s.How, "input_hex": core.Trunc(core.HexStr(s.Raw), 300), "outcome": describeOutcome(o)})
 		}
-		if v := checkAny(s.Raw, o, "corrupted input ("+s.How+")"); len(v) > 0 {
+		if v := checkAny(s.Raw, o, "corrupted input from a seekable source ("+s.How+")"); len(v) > 0 {
 			return v
 		}
-		// the same bytes from a seekable source (a file): the library may take other paths
-		o2 := readSeekable(s.Raw, true)
+		// the same bytes from a source without a Seek method (readBytes uses bytes.Reader, which has one)
+		o2 := readUnseekable(s.Raw, true)
 		st.Eval(1)
-		return checkAny(s.Raw, o2, "corrupted input from a seekable source ("+s.How+")")
+		return checkAny(s.Raw, o2, "corrupted input from a plain (non-seekable) reader ("+s.How+")")
 	}
 	sf := s.Src.produce()
 	if sf.bad != "" {
